@@ -534,7 +534,8 @@ def main(tier, seed):
               f"{len(nested)} lists of length <= 3 over elements that are "
               f"themselves lists/sets/maps/NULL for the rearranging "
               f"functions, {len(pairs)} list/set pairs for the set algebra "
-              f"and zip, "
+              f"and zip, {len(keyed)} lists of [key, tag] pairs through every "
+              f"function with a key/cmp parameter, "
               f"all distinct permutations of all {len(multisets)} multisets "
               f"of size <= 5 over {NUMS} for the statistics, all pairs of "
               f"{len(I80)} ints up to 2^80 for gcd/lcm (+ pow with 9 "
